@@ -363,6 +363,10 @@ class Check:
                 corr_bad.append((line, io, mo))
         self.n_nontrivial = len(distinct)
         self.tags = tags
+        # cross-case oracle (e.g. chunked vs whole): returns [(line, why, impl_out)]
+        if hasattr(m, "oracle_all"):
+            for line, why, io in m.oracle_all(self.cases, self.impl):
+                self.failures.append(Failure("oracle", line, why, impl=io))
         # correspondence disagreements: search neighbourhood for an oracle failure
         for line, io, mo in corr_bad[:200]:
             already = any(f.kind == "oracle" and f.case == line for f in self.failures)
